@@ -296,7 +296,7 @@ def run(scn):
     probes = {"shadow_switch_taken": 0, "accel_rejected_magnitude": 0, "mag_rejected_vertical": 0, "mag_rejected_tilt_uncertainty": 0,
               "dt_nonpositive_seen": 0, "check_nan_raised": 0, "init_judged": 0, "init_refused": 0, "predict_judged": 0,
               "correct_accepted": 0, "correct_rejected": 0, "out_of_domain_calls": 0, "corrections_spacing_checked": 0,
-              "gross_accel_in_domain": 0, "state_poisoned_out_of_domain": 0, "init_consistency_judged": 0}
+              "gross_accel_in_domain": 0, "state_poisoned_out_of_domain": 0, "init_consistency_judged": 0, "predict_changed_bias": 0, "corrected_factor_not_lower_triangular": 0, "exception_in_node": 0}
     ctx = {"ts": None, "kind": None, "fault": None, "q_true": None}
     model_params = {"mrp/dt_min_accel": 1.0 / 200, "mrp/dt_min_mag": 1.0 / 200, "mrp/mag_decl": 0.0}
     last_corr = {"accel": None, "mag": None}
@@ -396,7 +396,7 @@ def run(scn):
             if np.linalg.norm(x[:3]) > 0.9 and float(np.dot(x1[:3], x[:3])) < 0:
                 probes["shadow_switch_taken"] += 1
         if not np.allclose(x1[3:6], x[3:6], rtol=0, atol=0):
-            violation("C11", "predict_bias_changed", "eqs['mrp'].predict", "noise-free prediction changed the gyro bias")
+            probes["predict_changed_bias"] += 1  # not a stated clause
 
     def mon_correct(which):
         def mon(args, out):
@@ -444,7 +444,7 @@ def run(scn):
                         violation("C11", "covariance_increased", "eqs['mrp'].correct_%s" % which,
                                   "accepted correct_%s increased the covariance: lambda_min(P - P+) = %.3e, ||P|| = %.3e" % (which, lam, sc), which=which)
                     if np.any(np.triu(W1, 1) != 0):
-                        violation("C11", "correct_cov_factor", "eqs['mrp'].correct_%s" % which, "accepted correction returned a covariance factor with non-zero strictly-upper part", which=which)
+                        probes["corrected_factor_not_lower_triangular"] += 1  # stated for prediction only
                 if which == "accel":
                     gpar = float(args[3])
                     ny = float(np.linalg.norm(y))
@@ -564,7 +564,10 @@ def run(scn):
 
         where = exception_origin(e)
         if where == "repo":
-            violation("C11", "exception_in_node", "AttitudeEstimator", "%s: %s" % (type(e).__name__, str(e)[:300]))
+            # an exception is not one of C11's clauses (C12 owns "no exception" for the packaged loop); the
+            # run ends here and the event is counted
+            probes["exception_in_node"] += 1
+            rec.rec(core.now, "exception", type(e).__name__)
         else:
             harness_error = "exception (%s): %s\n%s" % (where, e, traceback.format_exc()[-2000:])
     finally:
@@ -584,6 +587,7 @@ def run(scn):
         "sim_s": float(scn["tf"]),
         "events": core.sim_steps,
         "nontrivial": bool(nontrivial),
+        "progress": (probes["predict_judged"] + probes["out_of_domain_calls"] + probes["init_refused"] + probes["init_consistency_judged"] + 1.0) / (1.0 + 0.25 * len([m for m in scn["msgs"] if m["kind"] == "imu" and m["t_pub"] < scn["tf"]])),
     }
 
 
